@@ -65,6 +65,7 @@ let dump_network (nw : network) (b : Buffer.t) : unit =
 
 let run (st : stream) (b : Buffer.t) : unit =
   let (inst, perm) = read_instance st in
+  Printf.bprintf b "valid %b\n" (valid_instance_b inst);
   match load inst perm with
   | Ok nw ->
     Buffer.add_string b "load OK\n";
